@@ -36,7 +36,7 @@ struct sSimTask { ucontext_t ctx; void* stack; ThreadExecutionFunction fn; void*
     struct sSemaphore* blocked_on; bool started; bool autodestroy; bool used; };
 static SimTask tasks[MAX_TASKS]; static int n_tasks = 0; static int cur_task = -1;
 static ucontext_t main_ctx;
-int sim_deadlock = 0; char sim_deadlock_info[256];
+int sim_deadlock = 0; char sim_deadlock_info[256]; int sim_last_task = -1;
 int sim_live_semaphores = 0, sim_live_sockets = 0, sim_live_threads = 0, sim_live_handlesets = 0;
 
 static void switch_to_main(void)
@@ -78,8 +78,10 @@ void sim_task_step(int i)
 }
 Thread Thread_create(ThreadExecutionFunction function, void* parameter, bool autodestroy)
 {
-    if (n_tasks >= MAX_TASKS) return NULL;
-    SimTask* t = &tasks[n_tasks++]; memset(t, 0, sizeof *t);
+    int slot = -1;
+    for (int i = 0; i < n_tasks; i++) if (!tasks[i].used) { slot = i; break; }
+    if (slot < 0) { if (n_tasks >= MAX_TASKS) return NULL; slot = n_tasks++; }
+    SimTask* t = &tasks[slot]; memset(t, 0, sizeof *t); sim_last_task = slot;
     t->fn = function; t->param = parameter; t->autodestroy = autodestroy; t->used = true;
     t->stack = malloc(STACK_SIZE);
     sim_live_threads++;
